@@ -244,39 +244,76 @@ impl PubSpec {
     pub fn eff_qos(&self) -> u8 {
         self.qos.unwrap_or(0)
     }
+    /// Whether `opts()` calls every single-valued setter twice, first with another value: the value set last is the
+    /// one the caller asked for. Decided from the content so that about a third of all publishes are built this way.
+    pub fn set_twice(&self) -> bool {
+        let h = self.payload.as_ref().map_or(0, |p| p.len()) + self.topic.as_ref().map_or(0, |t| t.len()) + self.eff_qos() as usize;
+        h % 3 == 1
+    }
     pub fn opts(&self) -> PublishOpts<'_> {
         let mut o = PublishOpts::new();
+        let twice = self.set_twice();
         if let Some(v) = self.qos {
+            if twice {
+                o = o.qos(qos_of((v + 1 + (self.topic.as_ref().map_or(0, |t| t.len()) % 2) as u8) % 3));
+            }
             o = o.qos(qos_of(v));
         }
         if let Some(v) = self.retain {
+            if twice {
+                o = o.retain(!v);
+            }
             o = o.retain(v);
         }
         if let Some(v) = &self.topic {
+            if twice {
+                o = o.topic_name("overwritten/topic");
+            }
             o = o.topic_name(v);
         }
         if let Some(v) = self.pfi {
+            if twice {
+                o = o.payload_format_indicator(!v);
+            }
             o = o.payload_format_indicator(v);
         }
         if let Some(v) = self.topic_alias {
+            if twice {
+                o = o.topic_alias(v ^ 0x0101);
+            }
             o = o.topic_alias(v);
         }
         if let Some(v) = self.mei {
+            if twice {
+                o = o.message_expiry_interval(Duration::from_secs((v ^ 0x8001) as u64));
+            }
             o = o.message_expiry_interval(Duration::from_secs(v as u64));
         }
         if let Some(v) = &self.correlation {
+            if twice {
+                o = o.correlation_data(b"overwritten correlation data");
+            }
             o = o.correlation_data(v);
         }
         if let Some(v) = &self.response_topic {
+            if twice {
+                o = o.response_topic("overwritten/response");
+            }
             o = o.response_topic(v);
         }
         if let Some(v) = &self.content_type {
+            if twice {
+                o = o.content_type("overwritten/type");
+            }
             o = o.content_type(v);
         }
         for (k, v) in &self.user_props {
             o = o.user_property((k, v));
         }
         if let Some(v) = &self.payload {
+            if twice {
+                o = o.payload(b"overwritten payload");
+            }
             o = o.payload(v);
         }
         o
